@@ -7,6 +7,7 @@ import (
 	"io/fs"
 	ros "os"
 	"path/filepath"
+	"sort"
 	"syscall"
 
 	"verif.local/sim/simfs"
@@ -241,11 +242,63 @@ func Stat(name string) (FileInfo, error) {
 
 func Lstat(name string) (FileInfo, error) { return Stat(name) }
 
+// ReadDir of package os sorts by file name
 func ReadDir(name string) ([]DirEntry, error) {
 	if !simfs.IsSim(name) {
 		return ros.ReadDir(name)
 	}
-	return nil, perr("readdir", name, syscall.ENOSYS)
+	f, err := Open(name)
+	if err != nil {
+		return nil, err
+	}
+	defer f.Close()
+	ents, err := f.ReadDir(-1)
+	sort.Slice(ents, func(i, j int) bool { return ents[i].Name() < ents[j].Name() })
+	return ents, err
+}
+
+type dirEntry struct{ fi fileInfo }
+
+func (d dirEntry) Name() string               { return d.fi.name }
+func (d dirEntry) IsDir() bool                { return d.fi.st.Dir }
+func (d dirEntry) Type() fs.FileMode          { return d.fi.Mode().Type() }
+func (d dirEntry) Info() (fs.FileInfo, error) { return d.fi, nil }
+
+// ReadDir of *os.File returns the entries in directory order (NOT sorted), like Readdirnames
+func (f *File) ReadDir(n int) ([]DirEntry, error) {
+	if f.real != nil {
+		return f.real.ReadDir(n)
+	}
+	names, err := f.Readdirnames(n)
+	if err != nil {
+		return nil, err
+	}
+	ents := make([]DirEntry, 0, len(names))
+	for _, nm := range names {
+		st, err := simfs.Cur.Stat(filepath.Join(filepath.Clean(f.name), nm))
+		if err != nil {
+			continue // removed in between
+		}
+		ents = append(ents, dirEntry{fileInfo{nm, st}})
+	}
+	return ents, nil
+}
+
+// Readdir is the FileInfo flavour of ReadDir
+func (f *File) Readdir(n int) ([]FileInfo, error) {
+	if f.real != nil {
+		return f.real.Readdir(n)
+	}
+	ents, err := f.ReadDir(n)
+	if err != nil {
+		return nil, err
+	}
+	out := make([]FileInfo, 0, len(ents))
+	for _, e := range ents {
+		fi, _ := e.Info()
+		out = append(out, fi)
+	}
+	return out, nil
 }
 
 func MkdirAll(path string, perm FileMode) error {
